@@ -291,6 +291,7 @@ def run(ctx: core.Ctx):
         o = oracle(c2[:, 1, 1].astype("float64").tolist())
         if not (abs(r2.tau.values[1, 1] - o["tau"]) < 1e-6 and abs(r2.pvalue.values[1, 1] - o["p"]) < 1e-6):
             ctx.fail("mktrend", dict(x=c2[:, 1, 1].tolist(), dtype=dt, nodata_attribute=None), dict(tau=float(r2.tau.values[1, 1]), p=float(r2.pvalue.values[1, 1])), o)
+    core.acc_dispatch(ctx, ['mktrend'])
     ctx.trusted += ["native model driver (Hdc/Model/Stats.lean at Float)", "harness/props/c10.py oracle (O(n^2) definition, math.erfc)"]
 
 
